@@ -33,7 +33,7 @@ type Op struct {
 	Key int           `json:"key,omitempty"` // key index; -1 foreign key
 	T   int           `json:"t,omitempty"`   // target (S, R) or stranger (X)
 	N   int           `json:"n,omitempty"`   // payload size
-	Mod string        `json:"mod,omitempty"` // S: "" | flip | trunc-salt | trunc-tag | badtype | truncaddr | private | loopback | cgnat | cgnat-mapped | ula | broadcast | empty-domain | domain | empty | raw:<dst>
+	Mod string        `json:"mod,omitempty"` // S: "" | flip | trunc-salt | trunc-tag | badtype | truncaddr | private | loopback | cgnat | cgnat-mapped | ula | broadcast | empty-domain | domain | nxdomain | empty | raw:<dst>
 	D   time.Duration `json:"d,omitempty"`   // A; sub-operations of P: delay before acting
 	Par []Op          `json:"par,omitempty"` // P: operations issued concurrently by separate threads
 	Raw []byte        `json:"raw,omitempty"` // S: the whole authenticated plaintext (address header included)
@@ -323,6 +323,8 @@ func Run(cfg Config, ops []Op, tr *Trace) {
 				dst = "dns.example:53"
 			case op.Mod == "private-domain":
 				dst = "private.example:53"
+			case op.Mod == "nxdomain":
+				dst = "nx.example:53" // a name the resolver does not know
 			case len(op.Mod) > 4 && op.Mod[:4] == "raw:":
 				dst = op.Mod[4:]
 			}
